@@ -5,6 +5,8 @@ let () =
     | "reg" -> Reg.run_case
     | "probe" -> Reg.run_probe
     | "cache" -> Cachedrv.run_case
+    | "defaults" -> Confdrv.run_defaults
+    | "rl" -> Confdrv.run_rl
     | p -> failwith ("unknown property " ^ p) in
   try
     while true do
